@@ -18,5 +18,5 @@ MANIFEST = {
   'level_text': 'CBMC self-composition (2-safety) over generator kernels: two runs on equal schema-level content at different addresses must emit identical text (aggregate bound initialisers) and iterate dictionaries/scopes in the same order. Kernel level only.',
   'level_note': 'Trusted: CBMC, printf content model, harness stubs for the expression printer. Outside: whole output trees, environment/locale/cwd dependence, the Python generator.',
   'technique': 'CBMC self-composition of real generator kernels with symbolic pointer payloads (2-safety)',
-  'design_ref': 'DESIGN.md section 3, C12',
+  'design_ref': 'DESIGN.md section 2, C12',
 }
